@@ -20,7 +20,7 @@ Out(e) == IF e.err = "" THEN "ok" ELSE "rej"
 MsgOf(T, e) == [id |-> e.id, len |-> e.len, val |-> e.val, nfds |-> e.nfds, fds |-> e.f0,
                 cred |-> e.cred, typ |-> e.typ]
 FileSeq(T, m) == [j \in 1..m.nfds |-> (m.fds + j - 1) % T.nfiles]
-ReqOf(e) == [rbuf |-> e.rbuf, want |-> e.want]
+ReqOf(e) == [rbuf |-> e.rbuf, want |-> e.want, free |-> e.free]
 
 \* "" when the event is what the specification demands in the current state, else the reason
 CheckSend(T, e) ==
